@@ -289,6 +289,106 @@ theorem C11_new_withDomain_agree (N : Norm) (l d₀ d r : Bytes) (b j : Jid)
     rw [key d']
     exact new_ok_iff.mpr ⟨hl, hr, l', d', r', hd, hnl, hnr, h1, h2, h3, rfl⟩
 
+/-- **Replacing one part of a returned address agrees with building from the parts**:
+for `b` returned by `New`, `b.WithResource(r)` succeeds with `j` exactly when
+`New(b.Localpart(), b.Domainpart(), r)` does — although `WithResource` re-validates only the
+new part. -/
+theorem C11_withResource_agree_new {N : Norm} (g : N.Good) {l₀ d₀ r₀ : Bytes} {b : Jid}
+    (hb : new N l₀ d₀ r₀ = .ok b) (r : Bytes) (j : Jid) :
+    withResource N b r = .ok j ↔ new N b.localpart b.domainpart r = .ok j := by
+  obtain ⟨_, _, l', d', r0', hd, hnl, _, h1, h2, _, rfl⟩ := new_ok_iff.mp hb
+  rw [mk_localpart, mk_domainpart]
+  have hd' := normDomain_idem g hd
+  have hnl' := normOpt_idem g.nL_idem g.nL_ne hnl
+  have key : ∀ r', (⟨(mk l' d' r0').data.take ((mk l' d' r0').ll + (mk l' d' r0').dl) ++ r',
+      (mk l' d' r0').ll, (mk l' d' r0').dl⟩ : Jid) = mk l' d' r' := by
+    intro r'
+    show (⟨List.take (l'.length + d'.length) (l' ++ d' ++ r0') ++ r', l'.length, d'.length⟩ : Jid) =
+      ⟨l' ++ d' ++ r', l'.length, d'.length⟩
+    rw [← List.length_append, List.take_left]
+  constructor
+  · intro h
+    obtain ⟨hu, r', hnr, h3, rfl⟩ := withResource_ok_iff.mp h
+    have hr : validUtf8 r = true := by
+      rcases hu with rfl | e
+      · exact validUtf8_nil
+      · exact e
+    rw [key r']
+    exact new_ok_iff.mpr ⟨normOpt_utf8 g.nL_utf8 hnl, hr, l', d', r', hd', hnl', hnr, h1, h2, h3, rfl⟩
+  · intro h
+    obtain ⟨_, hr, l2, d2, r', hd2, hnl2, hnr, _, _, h3, rfl⟩ := new_ok_iff.mp h
+    rw [hd'] at hd2; rw [hnl'] at hnl2
+    cases hd2; cases hnl2
+    exact withResource_ok_iff.mpr ⟨.inr hr, r', hnr, h3, (key r').symm⟩
+
+/-- the same for `WithLocal` -/
+theorem C11_withLocal_agree_new {N : Norm} (g : N.Good) {l₀ d₀ r₀ : Bytes} {b : Jid}
+    (hb : new N l₀ d₀ r₀ = .ok b) (l : Bytes) (j : Jid) :
+    withLocal N b l = .ok j ↔ new N l b.domainpart b.resourcepart = .ok j := by
+  obtain ⟨_, _, l0', d', r', hd, _, hnr, _, _, h3, rfl⟩ := new_ok_iff.mp hb
+  rw [mk_domainpart, mk_resourcepart]
+  have hd' := normDomain_idem g hd
+  have hnr' := normOpt_idem g.nR_idem g.nR_ne hnr
+  have key : ∀ l', (⟨l' ++ (mk l0' d' r').data.drop (mk l0' d' r').ll, l'.length, (mk l0' d' r').dl⟩ : Jid)
+      = mk l' d' r' := by
+    intro l'
+    show (⟨l' ++ List.drop l0'.length (l0' ++ d' ++ r'), l'.length, d'.length⟩ : Jid) =
+      ⟨l' ++ d' ++ r', l'.length, d'.length⟩
+    rw [List.append_assoc l0' d' r', List.drop_left, List.append_assoc]
+  constructor
+  · intro h
+    obtain ⟨hu, l', hnl, h1, h2, rfl⟩ := withLocal_ok_iff.mp h
+    have hl : validUtf8 l = true := by
+      rcases hu with rfl | e
+      · exact validUtf8_nil
+      · exact e
+    rw [key l']
+    exact new_ok_iff.mpr ⟨hl, normOpt_utf8 g.nR_utf8 hnr, l', d', r', hd', hnl, hnr', h1, h2, h3, rfl⟩
+  · intro h
+    obtain ⟨hl, _, l', d2, r2, hd2, hnl, hnr2, h1, h2, _, rfl⟩ := new_ok_iff.mp h
+    rw [hd'] at hd2; rw [hnr'] at hnr2
+    cases hd2; cases hnr2
+    exact withLocal_ok_iff.mpr ⟨.inr hl, l', hnl, h1, h2, (key l').symm⟩
+
+/-- the same for `WithDomain` -/
+theorem C11_withDomain_agree_new {N : Norm} (g : N.Good) {l₀ d₀ r₀ : Bytes} {b : Jid}
+    (hb : new N l₀ d₀ r₀ = .ok b) (d : Bytes) (j : Jid) :
+    withDomain N b d = .ok j ↔ new N b.localpart d b.resourcepart = .ok j := by
+  obtain ⟨_, _, l', d0', r', _, hnl, hnr, h1, h2, h3, rfl⟩ := new_ok_iff.mp hb
+  rw [mk_localpart, mk_resourcepart]
+  have hnl' := normOpt_idem g.nL_idem g.nL_ne hnl
+  have hnr' := normOpt_idem g.nR_idem g.nR_ne hnr
+  have key : ∀ d', (⟨(mk l' d0' r').data.take (mk l' d0' r').ll ++ d' ++
+      (mk l' d0' r').data.drop ((mk l' d0' r').ll + (mk l' d0' r').dl), (mk l' d0' r').ll, d'.length⟩ : Jid)
+      = mk l' d' r' := by
+    intro d'
+    show (⟨List.take l'.length (l' ++ d0' ++ r') ++ d' ++
+      List.drop (l'.length + d0'.length) (l' ++ d0' ++ r'), l'.length, d'.length⟩ : Jid) =
+      ⟨l' ++ d' ++ r', l'.length, d'.length⟩
+    rw [← List.length_append, List.drop_left, List.append_assoc l' d0' r', List.take_left]
+  constructor
+  · intro h
+    obtain ⟨d', hd, rfl⟩ := withDomain_ok_iff.mp h
+    rw [key d']
+    exact new_ok_iff.mpr ⟨normOpt_utf8 g.nL_utf8 hnl, normOpt_utf8 g.nR_utf8 hnr, l', d', r', hd,
+      hnl', hnr', h1, h2, h3, rfl⟩
+  · intro h
+    obtain ⟨_, _, l2, d', r2, hd, hnl2, hnr2, _, _, _, rfl⟩ := new_ok_iff.mp h
+    rw [hnl'] at hnl2; rw [hnr'] at hnr2
+    cases hnl2; cases hnr2
+    exact withDomain_ok_iff.mpr ⟨d', hd, (key d').symm⟩
+
+/-- hence every address obtained by replacing a part of a returned address is canonical
+too -/
+theorem C11_with_canonical {N : Norm} (g : N.Good) {l₀ d₀ r₀ : Bytes} {b : Jid}
+    (hb : new N l₀ d₀ r₀ = .ok b) (x : Bytes) (j : Jid)
+    (h : withLocal N b x = .ok j ∨ withDomain N b x = .ok j ∨ withResource N b x = .ok j) :
+    parse N j.toString = .ok j := by
+  rcases h with h | h | h
+  · exact C11_new_canonical g ((C11_withLocal_agree_new g hb x j).mp h)
+  · exact C11_new_canonical g ((C11_withDomain_agree_new g hb x j).mp h)
+  · exact C11_new_canonical g ((C11_withResource_agree_new g hb x j).mp h)
+
 /-! ### The XML attribute and element encodings round-trip -/
 
 /-- decoding the attribute value / character data written for an address that `Parse` (or
